@@ -36,6 +36,9 @@ ACK = 'MSH|^~\\&|A|B|||20200229||ACK^R01^ACK|1|P|%s\rMSA|AA|1'
 MSHONLY = 'MSH|^~\\&|A|B|||20200229||ACK^R01^ACK|1|P|%s'
 
 
+SHARED_HL = [(6, 7), (3, 4), (0, 1)]
+
+
 def report(m):
     r = m.validate(return_errors=True)
     return (r.is_valid, tuple(str(e) for e in r.errors), tuple(str(w) for w in r.warnings))
@@ -56,11 +59,17 @@ def corpus():
     c['fac_ST'] = ('S', lambda v, l: lambda: datatype_factory('ST', 'a|b#c\\L\\d', v, l).to_er7())
     c['fac_bad'] = ('S', lambda v, l: lambda: datatype_factory('NM', 'abc', v, l).to_er7())
     c['st_er7'] = ('S', lambda v, l: lambda: st_of(v)('x\\y|z#w', highlights=((0, 1), (2, 3))).to_er7())
+    # highlight ranges given as a list that both threads pass to their own datatype object (the caller owns the list)
+    c['st_shared_hl'] = ('X', lambda v, l: lambda: (st_of(v)('abcdefgh', highlights=SHARED_HL).to_er7(), tuple(SHARED_HL)))
     c['subcomp'] = ('M', lambda v, l: lambda: SubComponent(datatype='ST', value='x', version=v, validation_level=l).to_er7())
     c['component'] = ('M', lambda v, l: lambda: _comp(v, l))
     c['field'] = ('M', lambda v, l: lambda: _field(v, l))
     c['parse_field'] = ('M', lambda v, l: lambda: parse_field('A^B', 'PID_5', version=v, validation_level=l).to_er7())
     c['segment'] = ('M', lambda v, l: lambda: _segment(v, l))
+    # fields beyond the table: of a Z segment and of a segment that ends with a field of datatype varies (their references are
+    # made up on the fly, not read from the tables); the number depends on the version so that two threads never ask the same
+    c['zfield'] = ('M', lambda v, l: lambda: _open_field('ZIN', 3 if v == '2.5' else 7, v, l))
+    c['vfield'] = ('M', lambda v, l: lambda: _open_field('QPD', 5 if v == '2.5' else 6, v, l))
     c['parse_segment'] = ('M', lambda v, l: lambda: parse_segment('PID|1', version=v, validation_level=l).to_er7())
     c['message'] = ('L', lambda v, l: lambda: _message(v, l))
     c['parse_message'] = ('L', lambda v, l: lambda: _parse(MSHONLY % v, l))
@@ -89,6 +98,13 @@ def _segment(v, l):
     s = Segment('PID', version=v, validation_level=l)
     s.pid_1 = '1'
     return s.to_er7()
+
+
+def _open_field(seg, i, v, l):
+    from hl7apy.core import Segment
+    s = Segment(seg, version=v, validation_level=l)
+    setattr(s, '%s_%d' % (seg.lower(), i), 'A')
+    return s.to_er7(), [f.name for f in s.children]
 
 
 def _message(v, l):
@@ -239,6 +255,10 @@ def harnesses(tier):
         hs.append(((a, b), same2, 1, gran))
     for a, b in (list(itertools.combinations(M, 2))[::3] if q else itertools.combinations(M, 2)):
         hs.append(((a, b), mixed, 1, gran))
+    # class X: bodies that share an object of the caller's; explored with themselves and with one small body
+    hs.append((('st_shared_hl', 'st_shared_hl'), same2, 2, gran))
+    hs.append((('st_shared_hl', 'st_shared_hl'), mixed, 2, gran))
+    hs.append((('st_shared_hl', 'st_er7'), same2, 1, gran))
     tol2 = [('2.5', TOLERANT), ('2.5', TOLERANT)]
     if q:
         # large bodies: both serial orders (bound 0) in quick; preemptions in thorough
@@ -254,6 +274,9 @@ def harnesses(tier):
             hs.append(((a, b), tol2, 1, 'shared'))
         hs.append((('parse_adt', 'parse_message'), [('2.5', STRICT), ('2.7', TOLERANT)], 0, 'line'))
     return hs
+
+
+REEXPLORE_CAP = 6000
 
 
 def install_gran(gran):
@@ -360,11 +383,14 @@ def run_unit(unit, tier):
 
     try:
         n, capped = sched.explore(fresh_bodies, bound, on_exec)
-        if stats['wrote'] and bound < 2 and len(names) == 2:
+        if stats['wrote'] and bound < 2 and len(names) == 2 and not res.violations:
             install_gran('shared')
-            n2, capped2 = sched.explore(fresh_bodies, bound + 1, on_exec)
+            n2, capped2 = sched.explore(fresh_bodies, bound + 1, on_exec, max_executions=REEXPLORE_CAP)
             n += n2
             res.dims['harnesses re-explored at bound+1 because a body writes shared state'] += 1
+            if capped2:
+                # reported as what it is: the extra pass is a budgeted one, the pass at the registered bound is complete
+                res.dims['re-explorations at bound+1 stopped at the cap of %d executions' % REEXPLORE_CAP] += 1
     except HarnessError:
         if not res.violations:
             raise
